@@ -294,8 +294,53 @@ def counters(b):
     return sorted([SYM[g], int(v)] for g, v in b.storage.storage_instance.graph_node_ids.items())
 
 
-def run_history(kind, ops):
-    """-> list of {'r': ['ok', rval] | ['err', cls], 's': snapshot | None (= unchanged)}"""
+def probe(b, gids):
+    """every graph seen through the PUBLIC listing operations (a third long-lived handle per id): list_all_node_ids and
+    get_all_nodes_by_class for every class; an exception is recorded by its class"""
+    out = {}
+    for g in gids:
+        G = b.graph(g, 2)
+        d = {}
+        for name, f in [('ids', lambda: G.list_all_node_ids())] + \
+                       [(c, (lambda c=c: G.get_all_nodes_by_class(label=c))) for c in CLASSES]:
+            try:
+                d[name] = sort_vals([cv(x) for x in f()])
+            except BaseException as e:
+                d[name] = 'ERR:' + EXN.get(type(e).__name__, 'EOther')
+        out[str(SYM[g])] = d
+    return out
+
+
+def probe_expected(view):
+    """what the listings must answer for a graph whose (raw) content is `view` = [nodes, links]; None = unknown (a node
+    without NodeID makes the listing raise)"""
+    nodes = view[0] if view else []
+    if any(pget(n[1], NID) == 'ABSENT' for n in nodes):
+        return None
+    d = {'ids': sort_vals([pget(n[1], NID) for n in nodes]) if nodes else 'ERR:EQuery'}
+    for c in CLASSES:
+        d[c] = sort_vals([pget(n[1], NID) for n in nodes if pget(n[1], CLS) == SYM[c]])
+    return d
+
+
+def probe_check(kind, snap, pr, gids):
+    """the public listings of every graph agree with the graph's stored content"""
+    vw = views(kind, snap)
+    for g in gids:
+        want = probe_expected(vw.get(SYM[g]))
+        got = pr.get(str(SYM[g]))
+        if want is not None and got is not None and got != want:
+            for name in want:
+                if got.get(name) != want[name]:
+                    what = 'list_all_node_ids' if name == 'ids' else 'get_all_nodes_by_class(%s)' % name
+                    return '%s of graph %s answers %s, the graph holds %s' % (
+                        what, g, json.dumps(got.get(name)), json.dumps(want[name]))
+    return None
+
+
+def run_history(kind, ops, probes=True):
+    """-> list of {'r': ['ok', rval] | ['err', cls], 's': snapshot | None (= unchanged), 'n': allocator(s),
+    'p': public listings of every graph after the step}"""
     b = Backend(kind)
     out = []
     last = [[], []] if kind == 'shared' else []      # the empty store
@@ -311,7 +356,10 @@ def run_history(kind, ops):
         except BaseException as e:     # content outside the modelled universe (e.g. a cyclic attribute value)
             out.append({'r': r, 's': None, 'bad': type(e).__name__})
             break
-        out.append({'r': r, 's': None if snap == last else snap, 'n': counters(b)})
+        ob = {'r': r, 's': None if snap == last else snap, 'n': counters(b)}
+        if probes:
+            ob['p'] = probe(b, GIDS[:3])
+        out.append(ob)
         last = snap
     return out
 
@@ -972,6 +1020,38 @@ def emptying_scenario(rng, extra=4):
         sh.apply(op)
     for _ in range(extra):
         op = gen_op(rng, sh, kinds, ws, GIDS[:3], NIDS[:5], identity_rate=0.0, malformed=0.0, prefer_fresh=0.8)
+        sh.apply(op)
+        ops.append(op)
+    return ops
+
+
+def late_add_scenario(rng, extra=5):
+    """graph A exists; graph B is stored (import, clone or node by node); THEN a node is added to A; A is listed,
+    bulk-updated and read node by node; B is deleted; A is listed again"""
+    ga, gb, gc = rng.sample(GIDS[:3], 3)
+    na = rng.sample(NIDS[:5], 3)
+    ops = [['add_node', ga, na[0], rng.choice(CLASSES[:2]), None]]
+    if rng.random() < 0.5:
+        ops.append(['add_node', ga, na[1], rng.choice(CLASSES[:2]), None])
+    how = rng.choice(['import', 'clone', 'add'])
+    if how == 'import':
+        nodes, edges = gen_igraph(rng, gb, malformed=0.0)
+        ops.append(['import', gb, nodes or [[1, {'NodeID': na[0], 'Class': CLASSES[0]}]], edges if nodes else []])
+    elif how == 'clone':
+        ops.append(['clone', ga, gb])
+    else:
+        ops.append(['add_node', gb, rng.choice(NIDS[:5]), rng.choice(CLASSES[:2]), None])
+    ops.append(['add_node', ga, na[2], rng.choice(CLASSES[:2]), gen_props(rng, pmax=1) or None])
+    ops += [['list_ids', ga], ['by_class', ga, CLASSES[0]], ['upd_nodes', ga, rng.choice(PROPS), rng.choice(VALS)]]
+    ops += [['get_node', ga, n] for n in na if rng.random() < 0.8]
+    ops += [['matching', ga, gb], ['del_graph', gb], ['list_ids', ga], ['upd_nodes', ga, rng.choice(PROPS), rng.choice(VALS)]]
+    kinds = [k for k in DEFAULT_WEIGHTS if k != 'merge']
+    ws = [DEFAULT_WEIGHTS[k] for k in kinds]
+    sh = Shadow()
+    for op in ops:
+        sh.apply(op)
+    for _ in range(extra):
+        op = gen_op(rng, sh, kinds, ws, GIDS[:3], NIDS[:5], identity_rate=0.0, malformed=0.0)
         sh.apply(op)
         ops.append(op)
     return ops
